@@ -562,9 +562,28 @@ fn main() {
                 };
                 body.trim_start().to_string()
             };
+            // renderings of the i-th record of the complete file as the sequential eager and lazy readers give them
+            // (a query yields the lazy record type for some formats)
+            let seq_keys = |d: &Doc| -> Vec<Vec<String>> {
+                let mut per: Vec<Vec<String>> = Vec::new();
+                for api in [Api::Eager, Api::Lazy] {
+                    let mut o = Opts::for_doc(d).api(api);
+                    o.vpos = false;
+                    let log = vnd::read_log(d.format, &d.bytes[..], &o);
+                    let keys: Vec<String> = log.iter().filter(|l| l.starts_with("rec[")).map(|l| key_of(l)).collect();
+                    if per.is_empty() {
+                        per = keys.into_iter().map(|k| vec![k]).collect();
+                    } else if keys.len() == per.len() {
+                        for (p, k) in per.iter_mut().zip(keys) {
+                            p.push(k);
+                        }
+                    }
+                }
+                per
+            };
             let mut irows: Vec<IRow> = Vec::new();
             for d in pool.iter() {
-                if d.big || d.raw || d.index_of.is_some() || d.name.starts_with("eng-") || d.equiv_of.is_some() {
+                if d.big || d.raw || d.index_of.is_some() || d.name.starts_with("eng-") {
                     continue;
                 }
                 let text_kind = d.format == Format::Bgzf && d.set.ends_with(".gz");
@@ -585,14 +604,14 @@ fn main() {
                 let mut units: Vec<(String, usize, usize)> = Vec::new();
                 if d.format == Format::Cram {
                     let (_, cs) = vnd::walk::cram(&d.bytes);
-                    let mut o = Opts::for_doc(d).api(Api::Eager);
-                    o.vpos = false;
-                    let seq = vnd::read_log(d.format, &d.bytes[..], &o);
-                    let mut it = seq.iter().skip(1);
+                    let seq = seq_keys(d);
+                    let mut it = seq.iter();
                     for c in cs.iter().skip(1) {
                         for _ in 0..c.n_records.max(0) {
-                            if let Some(l) = it.next() {
-                                units.push((key_of(l), c.start, c.end));
+                            if let Some(ks) = it.next() {
+                                for k in ks {
+                                    units.push((k.clone(), c.start, c.end));
+                                }
                             }
                         }
                     }
@@ -604,12 +623,12 @@ fn main() {
                         (start, d.item_ends[m])
                     };
                     if matches!(d.format, Format::Bam | Format::Bcf) {
-                        let mut o = Opts::for_doc(d).api(Api::Eager);
-                        o.vpos = false;
-                        let seq = vnd::read_log(d.format, &d.bytes[..], &o);
+                        let seq = seq_keys(d);
                         let mut ustart = inner.header_end;
-                        for (l, &uend) in seq.iter().skip(1).zip(inner.record_ends.iter()) {
-                            units.push((key_of(l), member_of(ustart).0, member_of(uend.saturating_sub(1)).1));
+                        for (ks, &uend) in seq.iter().zip(inner.record_ends.iter()) {
+                            for k in ks {
+                                units.push((k.clone(), member_of(ustart).0, member_of(uend.saturating_sub(1)).1));
+                            }
                             ustart = uend;
                         }
                     } else {
@@ -621,13 +640,7 @@ fn main() {
                             lines.push((ls, le));
                             ls = le;
                         }
-                        let seq: Vec<String> = if matches!(d.format, Format::SamGz | Format::VcfGz) {
-                            let mut o = Opts::for_doc(d).api(Api::Eager);
-                            o.vpos = false;
-                            vnd::read_log(d.format, &d.bytes[..], &o).into_iter().skip(1).collect()
-                        } else {
-                            Vec::new()
-                        };
+                        let seq: Vec<Vec<String>> = if matches!(d.format, Format::SamGz | Format::VcfGz) { seq_keys(d) } else { Vec::new() };
                         let marker = match d.format {
                             Format::SamGz => b'@',
                             _ => b'#',
@@ -640,8 +653,8 @@ fn main() {
                             let (s0, e1) = (member_of(a).0, member_of(b.saturating_sub(1).max(a)).1);
                             units.push((format!("line={}", vnd::esc(t)), s0, e1));
                             if !t.is_empty() && t[0] != marker {
-                                if let Some(l) = seq.get(ri) {
-                                    units.push((key_of(l), s0, e1));
+                                for k in seq.get(ri).into_iter().flatten() {
+                                    units.push((k.clone(), s0, e1));
                                 }
                                 ri += 1;
                             }
@@ -741,7 +754,8 @@ fn main() {
                         for (a, b) in row.full.iter().zip(got.iter()) {
                             if a != b && !b.contains(": Err(") && !b.starts_with("end: Err(") {
                                 let label = a.split(": ").next().unwrap_or("fasta");
-                                return Err(Violation::new(fp(label, "altered-sequence"), decoded(label), short(a), short(b)));
+                                let symptom = if b.len() < a.len() && a.starts_with(b.split("seq#").next().unwrap_or("?")) { "short-sequence-no-error" } else { "altered-sequence" };
+                                return Err(Violation::new(fp(label, symptom), decoded(label), short(a), short(b)));
                             }
                         }
                         return Ok(());
@@ -756,7 +770,13 @@ fn main() {
                         for (j, rline) in recs.iter().enumerate() {
                             match frecs.get(j) {
                                 Some(f) if f == rline => {}
-                                Some(f) => return Err(Violation::new(fp(label, "altered-or-reordered-record"), decoded(label), format!("record {j}: {}", short(f)), format!("record {j}: {}", short(rline)))),
+                                Some(f) => {
+                                    // the S8 family of the sequential sweep (a bgzipped text cut at a member boundary
+                                    // inside a line: the partial last line parses) keeps its symptom word
+                                    let s8 = j + 1 == recs.len() && !matches!(d.format, Format::Bam | Format::Bcf | Format::Cram) && (cls == "block-boundary" || cls == "in-block-header");
+                                    let symptom = if s8 { "altered-last-rec" } else { "altered-or-reordered-record" };
+                                    return Err(Violation::new(fp(label, symptom), decoded(label), format!("record {j}: {}", short(f)), format!("record {j}: {}", short(rline))));
+                                }
                                 None => return Err(Violation::new(fp(label, "fabricated-record"), decoded(label), format!("{} records", frecs.len()), format!("record {j}: {}", short(rline)))),
                             }
                         }
@@ -765,8 +785,19 @@ fn main() {
                             // clean end of a shorter answer: acceptable only if the first missing record is not there
                             let missing = &frecs[recs.len()];
                             let key = missing.as_str();
-                            let unit = row.units.iter().find(|u| u.0 == key || (key.contains(" line=") && key.ends_with(&u.0) && u.0.starts_with("line=")));
+                            let find_unit = |key: &str| row.units.iter().find(|u| u.0 == key || (u.0.len() > key.len() && u.0.starts_with(key) && u.0.as_bytes()[key.len()] == b' ') || (key.contains(" line=") && key.ends_with(&u.0) && u.0.starts_with("line=")));
+                            let mut unit = find_unit(key);
+                            if unit.is_none() {
+                                // gff.gz / gtf.gz format-level queries: the n-th record of `query R` is the n-th line of
+                                // `indexed query R` (same index, same region, same filter)
+                                if let Some((_, irecs, _)) = full.iter().find(|x| x.0 == format!("indexed {label}")) {
+                                    if irecs.len() == frecs.len() {
+                                        unit = find_unit(&irecs[recs.len()]);
+                                    }
+                                }
+                            }
                             let Some((_, ustart, uend)) = unit else {
+                                eprintln!("C13 indexed_cuts: cannot locate {} ({label}): {}", d.name, short(key));
                                 vmc::machinery(format!("C13 indexed_cuts: cannot locate a record of the complete answer in {} ({label}): {}", d.name, short(key)));
                             };
                             let absent = *ustart >= k || (d.format != Format::Cram && k - *ustart < 18);
